@@ -254,7 +254,8 @@ func TestC05_Planted(t *testing.T) {
 			c.Sel = append(c.Sel, []byte(p))
 		}
 		if rapid.IntRange(0, 2).Draw(t, "withUnknown") == 0 {
-			k := uni.ScalarKinds[rapid.IntRange(0, len(uni.ScalarKinds)-1).Draw(t, "uk")]
+			kinds := append(append([]uni.Kind{}, uni.ScalarKinds...), uni.KJSONNum, uni.KJSONNum)
+			k := kinds[rapid.IntRange(0, len(kinds)-1).Draw(t, "uk")]
 			c.Unknown = uni.GenScalar(t, &uni.Type{K: k}, uni.Profile{})
 		}
 		c05Check(t, "TestC05_Planted", c)
@@ -307,6 +308,7 @@ func TestC05_Cross(t *testing.T) {
 			unknowns = append(unknowns, uni.Str("a"), uni.Str(""))
 		}
 	}
+	unknowns = append(unknowns, uni.JSONNum("1"), uni.JSONNum("1.0"), uni.JSONNum("5.5"), &uni.Node{T: uni.NamedScalar(uni.KString), S: "a"}, &uni.Node{T: uni.NamedScalar(uni.KInt), I: 1})
 	n := 0
 	for lname, leaf := range leafs {
 		// wrap the leaf container at depth 0..3 under maps / structs / slices / interfaces / pointers
